@@ -39,7 +39,7 @@ class C07(Prop):
     rule = ("random well-formed ordinal instances (soc/soi/toc/toi, 2-7 alternatives, ids sparse or 1..m, storage "
             "order of alternatives shuffled, multiplicities 1-4), with alternatives tied everywhere or never ranked; "
             "non-trivial = at least 2 distinct orders or a tie")
-    budget = {"quick": 300, "thorough": 3000}
+    budget = {"quick": 300, "thorough": 40000}
     anchors = [("preflibtools.properties.pairwisecomparisons", n) for n in
                ("pairwise_scores", "copeland_scores", "has_condorcet", "borda_scores")] + \
               [("preflibtools.instances.convert", "order_to_pwg")]
